@@ -48,7 +48,19 @@ def strategy(tier):
         'index': st.sampled_from(['default', 'default', 'default', 'dup',
                                   'strings', 'reversed', 'dup-first']),
         'avoid_known': st.sampled_from([True] * 7 + [False]),
+        # a constructed column of 20-odd codes or names in which a kind of
+        # character first appears in a value that sorts late
+        'late': st.sampled_from([None] * 47 + ['codes', 'names', 'punct']),
     }).map(steer)
+
+
+LATE = {
+    'codes': ['A%02d' % i for i in range(20)] + ['B7X', 'abc'],
+    'names': ['Ann', 'Bob', 'Cy', 'Dee', 'Eve', 'Flo', 'Gus', 'Hal', 'Ida',
+              'Jo', 'Kim', 'Lee', 'Max', 'Ned', 'Ola', 'Pam', 'Quin', 'Ray',
+              'Sue', 'Tom', 'Zo\u00eb', '\u00c9mile'],
+    'punct': ['k-%02d' % i for i in range(20)] + ['k_21', 'z.22'],
+}
 
 
 def set_index(df, kind):
@@ -67,6 +79,13 @@ def set_index(df, kind):
 
 def steer(case):
     steered = []
+    late = case.get('late')
+    if late:
+        vals = list(LATE[late])
+        case['frame'] = {'n': len(vals), 'cols': [
+            {'name': 'code', 'kind': 'ostr', 'cells': vals},
+            {'name': 'i', 'kind': 'int64', 'cells': list(range(len(vals)))}]}
+        case['inc_rex'] = True
     if case.pop('avoid_known'):
         for c in case['frame']['cols']:
             if c['kind'] in F.TZ_KINDS:
